@@ -398,6 +398,10 @@ V('M-real-base-bits', ['C01', 'C03', 'C09'], 'W.realfmt', BD, "            b = f
 V('M-real-exp-len', ['C01', 'C03'], 'W.realfmt', BE, "            elif n == 3:\n                fo |= 2", "            elif n == 3:\n                fo |= 3")
 V('M-real-sign-ext', ['C01', 'C09'], 'W.realfmt', BD, "            e = oct2int(eo[0]) & 0x80 and -1 or 0", "            e = oct2int(eo[0]) & 0x40 and -1 or 0")
 
+IN = 'pyasn1/compat/integer.py'
+V('M-int-nonminimal', ['C01', 'C02', 'C03'], 'W.int', IN, "            bits = (~value).bit_length()", "            bits = value.bit_length()")
+V('M-tagimpl-base-format', ['C01', 'C03', 'C13'], 'C13.impl', TG, "self.__superTags[-1].tagFormat", "self.__superTags[0].tagFormat")
+
 # --------------------------------------------------------------------------- runner
 
 def _copy_tree(repo, dest):
